@@ -966,22 +966,17 @@ Proof.
       destruct r1 as [|c2 r2]; cbn [tl].
       * apply bind_safe; [apply add_bytes_safe|intros]. apply bind_safe; [apply add_bytes_safe|intros].
         apply IH; [lia|cbn; lia].
-      * destruct r2 as [|c3 r3]; cbn [tl].
+      * destruct r2 as [|c3 r3].
         -- apply bind_safe; [apply add_bytes_safe|intros]. apply bind_safe; [apply add_bytes_safe|intros].
            apply IH; [lia|cbn; lia].
-        -- destruct (Z.eqb_spec c3 91) as [E91|E91]; [subst c3|].
+        -- cbn [tok_room length] in Hr. destruct (c3 =? 91).
            ++ apply bind_safe; [apply dt_digits_safe|intros [n r4] Hd]. apply dt_digits_suffix in Hd.
-              destruct r4 as [|c4 r5]; [exact I|]. destruct (Z.eqb_spec c4 93) as [E93|E93]; [subst c4|].
-              ** apply bind_safe; [apply add_bytes_safe|intros]. apply bind_safe; [apply add_bytes_safe|intros].
-                 cbn [tok_room length] in Hr. cbn [length] in Hd.
-                 apply IH; [lia|].
-                 destruct r5 as [|c5 r6]; [cbn; lia|].
-                 destruct (Z.eqb_spec c5 44); [subst c5|].
-                 --- destruct r6; cbn [tok_room length] in *; lia.
-                 --- cbn [tok_room length] in *. destruct c5; try lia; repeat (destruct p; try lia).
-              ** destruct c4; try exact I; repeat (destruct p; try exact I). contradiction.
-           ++ destruct (Z.eqb_spec c3 44) as [E44|E44]; [subst c3|].
-              ** apply bind_safe; [apply add_bytes_safe|intros]. apply bind_safe; [apply add_bytes_safe|intros].
-                 cbn [tok_room length] in Hr. apply IH; [lia|]. destruct r3; cbn [tok_room length] in *; lia.
-              ** destruct c3; try exact I; repeat (destruct p; try exact I); contradiction.
+              destruct r4 as [|c4 r5]; [exact I|]. destruct (negb (c4 =? 93)); [exact I|].
+              apply bind_safe; [apply add_bytes_safe|intros]. apply bind_safe; [apply add_bytes_safe|intros].
+              cbn [length] in Hd. apply IH; [lia|].
+              destruct r5 as [|c5 r6]; [cbn; lia|].
+              destruct (c5 =? 44); [destruct r6; cbn [tok_room length] in *; lia|cbn [tok_room length] in *; lia].
+           ++ destruct (c3 =? 44); [|exact I].
+              apply bind_safe; [apply add_bytes_safe|intros]. apply bind_safe; [apply add_bytes_safe|intros].
+              apply IH; [lia|]. destruct r3; cbn [tok_room length] in *; lia.
 Qed.
